@@ -83,6 +83,51 @@ func c13Plugin(c *oracleCtx, src string) {
 	}
 }
 
+// c13DropPlugin: (a) with a statement interceptor that parses `debugger` (an identifier for the lexer), an optional `;`
+// behind it, and returns nil — the statement is dropped from the tree
+func c13DropPlugin(c *oracleCtx, src string) {
+	parse := func(flags string) plainParse {
+		pb := parser.NewBuilder(lexer.NewBuilder())
+		pb.UseStatementInterceptor(func(p *parser.Parser, next func() ast.Statement) ast.Statement {
+			if p.CurrentToken.Type == token.IDENT && p.CurrentToken.Literal == "debugger" {
+				if p.PeekToken.Type == token.SEMICOLON {
+					p.NextToken()
+				}
+				return nil
+			}
+			return next()
+		})
+		if strings.Contains(flags, "t") {
+			pb.WithTolerantMode(true)
+		}
+		if strings.Contains(flags, "s") {
+			pb.WithSmartSemicolon(true)
+		}
+		p := pb.Build(src)
+		prog, err := p.ParseProgram()
+		return plainParse{prog: prog, err: err, errs: p.Errors(), p: p}
+	}
+	for _, smart := range []string{"", "s"} {
+		input := map[string]any{"kind": "drop-plugin", "src": hexOf(src), "text": src, "flags": smart, "plugin": "a statement interceptor consumes `debugger` `;`? and returns nil"}
+		guard(c, "panic", input, func() {
+			st := parse(smart)
+			if len(st.errs) > 0 || st.err != nil {
+				c.bump("a-drop-plugin-strict-rejects")
+				return
+			}
+			c.bump("a-drop-plugin-accepts")
+			to := parse(smart + "t")
+			if len(to.errs) > 0 || to.err != nil {
+				c.violation("tolerant-rejects-strict-accepted", "with the plugin strict mode accepts, tolerant reports: "+errsTextB(to.errs), input)
+				return
+			}
+			if a, b := stmtListStr(st.prog.Statements), stmtListStr(to.prog.Statements); a != b {
+				c.violation("tolerant-tree-differs", "with the plugin strict and tolerant trees differ "+firstDiff(a, b), input)
+			}
+		})
+	}
+}
+
 // lineInitialCallOrIndex: some ( or [ token is the first token on a line
 func lineInitialCallOrIndex(src string) bool {
 	// decided on the text, not on the lexer's after-newline flag: the token is the first thing on its line
@@ -283,6 +328,8 @@ func oracleC13(c *oracleCtx) {
 				c13Smart(c, in.src)
 			case "plugin":
 				c13Plugin(c, in.src)
+			case "drop-plugin":
+				c13DropPlugin(c, in.src)
 			case "join", "truncate":
 				c13Tolerant(c, recStr(in.rec, "kind"), unhex(recStr(in.rec, "orig")), in.src, recInt(in.rec, "cut"))
 			case "d":
@@ -318,6 +365,22 @@ func oracleC13(c *oracleCtx) {
 	c13SmartLines(c, "a = 1\n(b)(c)\n[d].k\n", "a = 1\n;(b)(c)\n;[d].k\n")
 	c13SmartLines(c, "setup() // prepare\r\n(function() { a; })()\r\n[d].k // x\r\n", "setup() // prepare\r\n;(function() { a; })()\r\n;[d].k // x\r\n")
 	c13SmartLines(c, "total = a + b\n(function() { a; })()\nn = -a\n[b].k\n", "total = a + b\n;(function() { a; })()\nn = -a\n;[b].k\n")
+	// … inside the body of a function expression that itself stands inside brackets (call argument, IIFE, array element, index)
+	for _, w := range [][2]string{{"run(", ")"}, {"(", ")()"}, {"x = [", "]"}, {"t[", "]"}, {"f(a, [", "])"}, {"o = {k: ", "}"}, {"y = (1 + ", ")"}} {
+		for _, body := range [][2]string{
+			{"log(1)\n  (a || b)()\n", "log(1)\n  ;(a || b)()\n"},
+			{"n = m\n  [1, 2].k\n  (g)()\n", "n = m\n  ;[1, 2].k\n  ;(g)()\n"},
+			{"if (c) { p = q\n (r)() }\n  s()\n  [u]\n", "if (c) { p = q\n ;(r)() }\n  s()\n  ;[u]\n"},
+		} {
+			c13SmartLines(c, w[0]+"function() {\n  "+body[0]+"}"+w[1]+"\n", w[0]+"function() {\n  "+body[1]+"}"+w[1]+"\n")
+		}
+	}
+	// (a) with a statement-level plugin that consumes a whole statement and returns nothing for it (the supported way
+	// of dropping a statement): what strict mode reads with it, tolerant mode reads the same
+	for _, s := range []string{"debugger; x = 1\ny = 2", "debugger\nx = 1", "function f(a) { debugger; return a + 1 }", "a = 1; debugger; b = 2; debugger; c = 3",
+		"if (a) { debugger; b() } else { debugger; c() }\nd()", "debugger; debugger; x\n", "while (a) { debugger; a-- }", "x = function() { debugger; return 1 }"} {
+		c13DropPlugin(c, s)
+	}
 	n := c.n(3000, 120000)
 	for i := 0; i < n && !c.expired(); i++ {
 		switch c.r.Intn(10) {
